@@ -283,3 +283,25 @@ var RecoveryCorpus = []*SynGrammar{
 			P("I", Lit("x"), Lit(";")), P("I", Lit("{"), NT("L"), Lit("}")), P("I", Err(), Lit(";")),
 		}},
 }
+
+// ConflictCorpus: grammars with LR(1) conflicts, generated with -a (C05).
+var ConflictCorpus = []*SynGrammar{
+	{Name: "G10", Why: "dangling else (shift/reduce)", Lex: stdLex, Flags: []string{"-a"},
+		Prods: []Prod{
+			P("S", Lit("if"), NT("S")), P("S", Lit("if"), NT("S"), Lit("else"), NT("S")), P("S", Lit("x")),
+		}},
+	{Name: "G11", Why: "ambiguous expressions (shift/reduce on both operators)", Lex: stdLex, Flags: []string{"-a"},
+		Prods: []Prod{
+			P("E", NT("E"), Lit("+"), NT("E")), P("E", NT("E"), Lit("*"), NT("E")), P("E", Lit("n")),
+		}},
+	{Name: "G12", Why: "reduce/reduce: the earlier production must win", Lex: stdLex, Flags: []string{"-a"},
+		Prods: []Prod{
+			P("S", NT("B"), Lit("z")), P("S", NT("A"), Lit("z")), P("S", NT("A"), Lit("y")),
+			P("A", Lit("a")), P("B", Lit("a")),
+		}},
+	{Name: "G13", Why: "a shift competing with two reductions", Lex: stdLex, Flags: []string{"-a"},
+		Prods: []Prod{
+			P("S", NT("A"), Lit("b")), P("S", NT("B"), Lit("b")), P("S", NT("C")),
+			P("A", Lit("a")), P("B", Lit("a")), P("C", Lit("a"), Lit("b"), Lit("c")),
+		}},
+}
